@@ -90,8 +90,11 @@ fn text_of_first_token(node: &SyntaxNode) -> TokenText<'_> {
 // }
 
 impl ast::AssignmentStmt {
+    /// The assigned-to identifier, if the left-hand side is a plain identifier.
+    /// The left-hand side is the first child node; looking for any `Identifier`
+    /// child would return the right-hand side of `c[0] = b`.
     pub fn identifier(&self) -> Option<ast::Identifier> {
-        support::child(&self.syntax)
+        self.syntax().first_child().and_then(ast::Identifier::cast)
     }
 }
 
